@@ -20,7 +20,25 @@ def bufstep(prof, quick, thorough, steps=40):
             "env": {"VKIT_PROFILE": prof}}
 
 
+CHAN_MODEL = ("rapid state machine over bigbuff.Channel inside a synctest bubble (virtual poll ticks): source buffered (cap 1/4) or "
+              "unbuffered (harness feeder), rate in {default,50us,1ms}, parent ctx nil/cancellable; rules feed(1-3), get (launched; ctx "
+              "nil/bg/cancellable/pre-cancelled), cancelGet, advance(1-3 poll periods), commit, rollback, close, cancelParent, closeSource; "
+              "model (fed, taken, committed, replay, closed) checked after every step: Get value/error/enabledness, Buffer() == taken-but-uncommitted, "
+              "source accounting, Done, no zero values from a closed source, nothing taken after close, goroutine-leak check at the end. ")
+
+
+def chanstep(prof, quick, thorough):
+    return {"name": "chanstep", "test": "TestChanStep", "steps": 40,
+            "checks": {"quick": quick, "thorough": thorough},
+            "shards": {"quick": 8, "thorough": 16},
+            "env": {"VKIT_PROFILE": prof}}
+
+
 CONFIG = {
+    "C13": {
+        "rule": CHAN_MODEL + "non-trivial = a sequence containing rollback, partial re-read (>=1, < pending), second rollback, then commit; or a Close/cancel with a Get pending; distinct = hash of the executed op trace.",
+        "jobs": [chanstep("C13", 24000, 800000)],
+    },
     "C01": {
         "rule": BUF_MODEL + "non-trivial = >=2 consumers alive at once AND >=1 eviction while a consumer was open AND >=1 batch of >=2 values; distinct = hash of the executed op trace.",
         "jobs": [bufstep("C01", 24000, 800000)],
@@ -47,7 +65,7 @@ CONFIG = {
     },
     "C12": {
         "rule": BUF_MODEL + "non-trivial = a Close launched while another op on the handle was in flight or uncommitted reads existed AND >=2 handles closed in non-creation order; distinct = hash of the executed op trace.",
-        "jobs": [bufstep("C12", 24000, 800000)],
+        "jobs": [bufstep("C12", 24000, 800000), chanstep("C12", 12000, 400000)],
     },
     "C19": {
         "rule": ("rapid-generated function signatures (reflect.FuncOf over a 19-type grammar, 0-4 params, optional "
